@@ -480,6 +480,38 @@ func runSingle(t *testing.T, run *vt.Run, c vt.CaseID, script []string, gen stri
 		v.addListener()
 		v.addWaiter("Running", false)
 		v.addWaiter("Terminated", false)
+		// a failure watcher on the single service: one error, wrapping the failure cause, iff the service ends Failed
+		fw := services.NewFailureWatcher()
+		fw.WatchService(v.s)
+		var fwMu sync.Mutex
+		var fwErrs []error
+		fwDone := make(chan struct{})
+		go func() {
+			defer close(fwDone)
+			for e := range fw.Chan() {
+				fwMu.Lock()
+				fwErrs = append(fwErrs, e)
+				fwMu.Unlock()
+			}
+		}()
+		defer func() {
+			synctest.Wait()
+			fwMu.Lock()
+			got := append([]error(nil), fwErrs...)
+			fwMu.Unlock()
+			st := v.s.State()
+			run.Count("single_service_failure_watchers_judged", 1)
+			switch {
+			case st == services.Failed && len(got) != 1:
+				viol("failure-watcher", fmt.Sprintf("the service ended Failed but the failure watcher delivered %d errors", len(got)), nil)
+			case st == services.Failed && !errors.Is(got[0], v.s.FailureCase()):
+				viol("failure-watcher", fmt.Sprintf("the failure watcher delivered %v, which does not wrap the failure cause %v", got[0], v.s.FailureCase()), nil)
+			case st != services.Failed && len(got) != 0:
+				viol("failure-watcher", fmt.Sprintf("the service is %v but the failure watcher delivered %v", st, got), nil)
+			}
+			fw.Close()
+			<-fwDone
+		}()
 		synctest.Wait()
 		v.check(viol, false)
 		for _, a := range script {
